@@ -25,29 +25,34 @@ Fixpoint gen_run (st : Z) (clocks : list Z) : list Z :=
 (* NewMessageIDGen: nano = 0 *)
 Definition gen_init : Z := 0.
 
-(* ---- the library's own id -> time decoding, MessageID.Time():
-        time.Unix(int64(id) >> 32, int64(int32(id))), as unix nanoseconds ---- *)
-Definition wrap_s32 (x : Z) : Z := ((x + 2147483648) mod 4294967296) - 2147483648.
-Definition id_time_lib (id : Z) : Z := Z.shiftr id 32 * 1000000000 + wrap_s32 id.
+(* ---- the library's id -> time decoding, MessageID.Time(): time.Unix(sec, nsec) with both
+        parts regenerated from the source (Gen/MsgIdGen.v), as unix nanoseconds.  Since fix
+        ad4102cfc the low word is read as a binary fraction of a second. ---- *)
+Definition id_time_lib (id : Z) : Z := id_time_sec_go id * 1000000000 + id_time_nsec_go id.
 
-(* the specification's reading of an id: unixtime * 2^32, i.e. seconds = id / 2^32 as a
-   rational.  To stay in Z it is kept scaled: spec nanoseconds * 2^32. *)
+(* the specification's reading of an id: unixtime * 2^32, i.e. id / 2^32 seconds as a
+   rational.  To stay in Z it is kept scaled: (spec nanoseconds) * 2^32. *)
 Definition id_time_spec_scaled (id : Z) : Z :=
   (id / 4294967296) * 1000000000 * 4294967296 + (id mod 4294967296) * 1000000000.
+
+(* what newMessageID WRITES: seconds in the high word and the NANOSECONDS of the second
+   (rounded to a multiple of 4, plus the type bits) in the low word.  This is the reading under
+   which a client id reproduces the clock reading it was made from. *)
+Definition id_time_enc (id : Z) : Z := (id / 4294967296) * 1000000000 + id mod 4294967296.
 
 (* ---- C08 specification predicates (statement vocabulary, no code) ----
    one generation step: tprev = time encoded by the previous id (0 before the first),
    c = the clock reading of this call, id = the produced id. *)
 Definition step_ok (tprev c id : Z) : Prop :=
   id mod 4 = 0 /\
-  tprev < id_time_lib id /\
-  c <= id_time_lib id + 3 /\
-  id_time_lib id <= Z.max c (tprev + 13).
+  tprev < id_time_enc id /\
+  c <= id_time_enc id + 3 /\
+  id_time_enc id <= Z.max c (tprev + 13).
 
 Fixpoint good_from (tprev : Z) (l : list (Z * Z)) : Prop :=
   match l with
   | [] => True
-  | (c, id) :: t => step_ok tprev c id /\ good_from (id_time_lib id) t
+  | (c, id) :: t => step_ok tprev c id /\ good_from (id_time_enc id) t
   end.
 
 (* ---- nextMsgSeq: state = sentContentMessages ---- *)
